@@ -632,7 +632,18 @@ class SqlImpl(TableImpl):
 
             # Update sqa_expr to point to the union result columns
             # Use left column names
-            sqa_expr = {uid: sqa.label(sqa_expr[uid].name, table.columns[sqa_expr[uid].name]) for uid in left_select}
+            # (The result columns get their types from the left operand: where that is
+            # an untyped null literal, the type of the right operand's column is known.)
+            def result_col(l_uid, r_uid):
+                col = table.columns[sqa_expr[l_uid].name]
+                r_type = right_sqa_expr[r_uid].type
+                if isinstance(col.type, sqa.types.NullType) and not isinstance(r_type, sqa.types.NullType):
+                    col = sqa.type_coerce(col, r_type)
+                return sqa.label(sqa_expr[l_uid].name, col)
+
+            sqa_expr = {
+                l_uid: result_col(l_uid, r_uid) for l_uid, r_uid in zip(left_select, right_query.select, strict=True)
+            }
 
             # Create a new query with the union result
             # Only keep the select columns, reset all other query state
